@@ -8,6 +8,29 @@ from checks import views
 ETYPES = ["int", "double", "string"]
 
 
+WIDE = 2 ** 31 + 5     # Serialization!WIDE: an extent that does not fit 32 bits, spelled -1 in the specification
+
+
+def wide(rec):
+    """substitute the wide extent (the specification's -1) in shapes and in the extension tokens of a record"""
+    def sh(v):
+        return [WIDE if x == -1 else (WIDE + 1 if x == 0 and False else x) for x in v]
+    src, pv = rec["src"], rec["priorval"]
+    if -1 not in src["shape"] and -1 not in pv["shape"]:
+        return rec
+    r = dict(rec)
+    r["src"] = dict(src, shape=sh(src["shape"]))
+    # the prior "other" adds one to every extent (-1 + 1 = 0 in the specification): keep it element-free and small
+    r["priorval"] = dict(pv, shape=sh(pv["shape"]))
+    D = rec["D"]
+    toks = list(rec["tokens"])
+    for d in range(D):
+        if src["shape"][d] == -1:
+            toks[2 * d + 1] = src["first"][d] + WIDE
+    r["tokens"] = toks
+    return r
+
+
 def sline(pid, rec, etype):
     a, p = rec["src"], rec["priorval"]
     parts = ["S", str(pid), str(rec["D"])] + [str(x) for x in a["shape"]] + [str(x) for x in a["first"]] + [rec["prior"]]
@@ -37,7 +60,7 @@ def run(tier):
         if res.violated:
             rep.violation({"kind": "design", "invariant": res.violated}, {"tlc": res.error_text})
             continue
-        recs = list(vlib.emitted(res.out_path))
+        recs = [wide(r) for r in vlib.emitted(res.out_path)]
         os.remove(res.out_path)
         exps, lines = [], []
         for rec in recs:
